@@ -292,6 +292,19 @@ VP_TARGET("pool_c", pool_c_target,
           "exhausted pool), then free all and re-allocate capacity+1 times; non-trivial = the history went "
           "exhausted -> free -> alloc");
 
+static size_t big_cap(Src &s) { return (size_t)(s.weighted({3, 1, 1}) == 0 ? s.range(250, 262) : s.coin() ? s.range(33, 300) : s.range(508, 516)); }
+static void pool_c_big_target(Src &s, Case &c)
+{
+    size_t el = pick_elemsz(s), cap = big_cap(s);
+    Exact zone(el * cap);
+    memset(zone.p, 0xA5, el * cap);
+    PoolC a(zone.p, cap, el);
+    pool_history(s, c, a, "pool_c");
+}
+VP_TARGET("pool_c_big", pool_c_big_target,
+          "pool_head with capacity 250..262, 33..300 or 508..516 (more cells than a one-byte count holds): same history and final "
+          "exhaust / free all / re-allocate capacity+1 phase as pool_c");
+
 // -------------------------------------------------------------- pool_cxx
 static const char K_POOL_GET[] = "C10-pool-get-null-count";
 struct PoolCxx : RawAdapterBase
@@ -375,6 +388,16 @@ VP_TARGET("pool_cxx", pool_cxx_target,
           "igris::pool over an exactly-sized zone, element size in {8,16,24,40,64,104}, capacity 1..32, up to 200 "
           "get/put/put(NULL)/probe steps (cell_is_allocated for every index, iteration over allocated cells, "
           "room/avail/size), then put all and get capacity+1 times; non-trivial = exhausted -> put -> get");
+
+static void pool_cxx_big_target(Src &s, Case &c)
+{
+    size_t el = pick_elemsz(s), cap = big_cap(s);
+    Exact zone(el * cap);
+    memset(zone.p, 0xA5, el * cap);
+    PoolCxx a(zone.p, cap, el);
+    pool_history(s, c, a, "pool_cxx");
+}
+VP_TARGET("pool_cxx_big", pool_cxx_big_target, "igris::pool with capacity 250..262, 33..300 or 508..516: same history and checks as pool_cxx");
 
 // ------------------------------------------------------------ object_pool
 // Element type that owns a heap byte (leaks / double destruction are ASan
